@@ -466,10 +466,21 @@ def _rand_sym(rnd, isa):
     return rnd.choice(pats) % rnd.randint(0, 99)
 
 
+def _anycase(rnd, name):
+    """register names are case-insensitive for the assembler (%RAX, %Xmm3): now and then in upper or mixed case;
+    the parser has to return the name as written"""
+    r = rnd.random()
+    if r < 0.08:
+        return name.upper()
+    if r < 0.11:
+        return name[0].upper() + name[1:]
+    return name
+
+
 def rand_x86_operand(rnd, regnames, kind=None):
     kind = kind or rnd.choice(["reg", "reg", "mem", "mem", "imm"])
     if kind == "reg":
-        return xreg(rnd.choice(regnames))
+        return xreg(_anycase(rnd, rnd.choice(regnames)))
     if kind == "imm":
         if rnd.random() < 0.1:
             return {"k": "immsym", "name": _rand_sym(rnd, "x86")}
@@ -491,11 +502,11 @@ def rand_x86_operand(rnd, regnames, kind=None):
         else:
             disp = [dict({"k": "num"}, **_rand_num(rnd, 32))]
     if hb:
-        base = [rnd.choice(pool)]
+        base = [_anycase(rnd, rnd.choice(pool))]
         if hd and not hi and disp[0]["k"] == "sym" and rnd.random() < 0.7:
             base = ["rip"]
     if hi:
-        index = [rnd.choice([r for r in pool if r not in ("rsp", "esp")])]
+        index = [_anycase(rnd, rnd.choice([r for r in pool if r not in ("rsp", "esp")]))]
         scale = rnd.choice([0, 1, 2, 4, 8])
     return {"k": "mem", "disp": disp, "base": base, "index": index, "scale": scale}
 
